@@ -30,6 +30,8 @@ CLAIMED = {
              ref='section 4 C15', note=COMMON_NOTE + "TLS/WebSocket variants and connection set-up not covered; independence of segmentation follows from the step contract plus the prefix-stability lemma (stated meta-argument)."),
  'C18': dict(text="Deductive proof of the per-call shutdown clauses: MessageManager.shutdown cancels every retransmission timer and drops the exchanges before the transport is shut down; afterwards send_message forces NON (no new exchange/timer), dispatch_error on either manager returns without effect, TokenManager.request fails immediately with LibraryShutdown. Completion within SHUTDOWN_TIMEOUT and 'transmits nothing' are not decided.",
              ref='section 4 C18', note=COMMON_NOTE + "T-LOOP; only the synchronous parts before each await are specified (everything is havocked at an await)."),
+ 'C17': dict(text="Deductive proof of Site._find_child_and_pathstripped_message against the routing oracle of the property (exact match first; otherwise the nested site at the longest non-empty proper prefix, proved with a loop invariant over the prefix search; otherwise KeyError), of the stripped request (remaining components, a trailing empty component handed on as the sub-site's root, all other fields copied, original request path remembered through nested sites), of Site.render (4.04 only when nothing matches, the routed resource renders the stripped request) and of remove_resource. Link listing and filter queries are not decided.",
+             ref='section 4 C17', note=COMMON_NOTE + "A-SKEY (tuple keys as injective codes); Message.copy assumed; one recorded finding (nested site at the empty path is never matched: literal reading of 'longest proper prefix'); get_resources_as_linkheader/WKCResource filters not covered."),
  'C19': dict(text="Deductive proof that FileServer.request_to_localpath returns only paths root / '/'.join(P) whose components contain no '/', are not '.' or '..' and whose joined string is relative (else 4.00), that every file-system primitive reached from render_get/put/delete acts on that checked path, its parent directory, a temporary file created there or an entry listed from it (data flow on every path, also failing ones), that nothing is modified unless write permission was tested, and that render_get_file returns exactly the requested slice of the file content with the more-flag set iff bytes remain.",
              ref='section 4 C19', note=COMMON_NOTE + "A-STR/pathlib (assumed contract of str.join and pathlib's '/' operator, conformance-tested exhaustively over a small alphabet on every run: bounded, not proof); symlinks and stat/use races not covered; hash_stat, mimetypes, link header are opaque."),
 }
